@@ -361,6 +361,28 @@ func closureChecks(res *sim.Result) bool {
 		if e, err := g.Call(ctx, "clock_time_get", 1, 0, 0x100); err != nil || e != 0 || g.U64(0x100) != 0 {
 			return fail("first monotonic clock reading is %d, expected 0", g.U64(0x100))
 		}
+		// a one-hour relative clock subscription must come back without a real sleep
+		// (limit 5 s of real time: more than 700x the simulated duration's ratio, 10^3 x the healthy latency)
+		sub := make([]byte, 48)
+		sub[0] = 7
+		sub[8] = 0 // clock
+		sub[16] = 1
+		hour := uint64(3600) * 1_000_000_000
+		for i := 0; i < 8; i++ {
+			sub[24+i] = byte(hour >> (8 * i))
+		}
+		g.Write(0x4000, sub)
+		t0 := time.Now()
+		if e, err := g.Call(ctx, "poll_oneoff", 0x4000, 0x5000, 1, 0x100); err != nil || e != 0 {
+			return fail("poll_oneoff with a clock subscription failed: errno %d %v", e, err)
+		}
+		if d := time.Since(t0); d > 5*time.Second {
+			return fail("poll_oneoff with a one-hour timeout took %v of real time: a real sleep was reached", d)
+		}
+		t0 = time.Now()
+		for i := 0; i < 50; i++ {
+			g.Call(ctx, "sched_yield")
+		}
 		g.Mod.Close(ctx)
 	}
 	return true
